@@ -47,6 +47,22 @@ fn unix_noon(d: Date) -> i64 {
     (d - epoch).whole_days() * 86_400 + 12 * 3600
 }
 
+/// Deterministic panic report: the default hook prints the OS thread id, which
+/// differs between two executions of the same simulation.
+pub fn install_panic_hook() {
+    std::panic::set_hook(Box::new(|info| {
+        let loc = info.location().map(|l| format!("{}:{}:{}", l.file(), l.line(), l.column())).unwrap_or_default();
+        let msg = if let Some(s) = info.payload().downcast_ref::<&str>() {
+            s.to_string()
+        } else if let Some(s) = info.payload().downcast_ref::<String>() {
+            s.clone()
+        } else {
+            "Box<dyn Any>".to_string()
+        };
+        eprintln!("thread panicked at {}:\n{}", loc, msg);
+    }));
+}
+
 pub fn run_process<T, F>(env: &ProcEnv, f: F) -> ProcOut<T>
 where
     T: Send + 'static,
